@@ -95,6 +95,13 @@ def fixed_cases(tier):
         out.append({'hist': [{'call': 'merge', 'id': 'd0', 'data': order[0], 'parents': []}, {'call': 'merge', 'id': 'd1', 'data': order[1], 'parents': []},
                              {'call': 'output', 'format': 'json'}, {'call': 'documents'}, {'call': 'output', 'format': 'yaml'},
                              {'call': 'merge', 'id': 'c1', 'data': {'$match': {'name': 'b'}, 'ctx': {'v': 'changed'}}, 'parents': []}, {'call': 'output', 'format': 'json'}], 'labels': ['fixed']})
+    # the string form of a cross-document $merge whose target still holds a map-form $merge: output must not expand it in the other document's stored tree
+    SB = {'name': 'base', 'defaults': {'port': 80}, 'conf': {'$merge': 'defaults', 'tls': True}}
+    SU = {'name': 'user', 'defaults': {'port': 1}, 'svc': '$merge:[{name: base}, conf]', 'alt': '$replace:[{name: base}, conf]'}
+    for order in ([SB, SU], [SU, SB]):
+        out.append({'hist': [{'call': 'merge', 'id': 'd0', 'data': order[0], 'parents': []}, {'call': 'merge', 'id': 'd1', 'data': order[1], 'parents': []},
+                             {'call': 'documents'}, {'call': 'output', 'format': 'json'}, {'call': 'documents'}, {'call': 'output', 'format': 'yaml'}, {'call': 'output', 'format': 'json'},
+                             {'call': 'merge', 'id': 'c1', 'data': {'$match': {'name': 'base'}, 'defaults': {'port': 81}}, 'parents': []}, {'call': 'output', 'format': 'json'}], 'labels': ['fixed']})
     return out
 
 
